@@ -27,7 +27,7 @@ def rule(rid, props, floor=1, tier="quick"):
 class Inst:
     """One obligation (rule instance)."""
 
-    __slots__ = ("rule", "key", "ok", "msg", "loc", "detail")
+    __slots__ = ("rule", "key", "ok", "msg", "loc", "detail", "props")
 
     def __init__(self, key, ok, msg="", loc=None, detail=None):
         self.rule = None
@@ -36,6 +36,7 @@ class Inst:
         self.msg = msg
         self.loc = loc
         self.detail = detail
+        self.props = None  # optional: the subset of the rule's properties this obligation bears on
 
     def full_key(self):
         return "%s|%s" % (self.rule, self.key)
@@ -83,18 +84,21 @@ def run_rules(ctx, prop, tier="quick"):
             i = Inst("rule-crashed", False, "rule raised %s: %s\n%s" % (type(e).__name__, e, tb))
             i.rule = rid
             res = [i]
+        n_all = len(res)
+        res = [i for i in res if i.props is None or prop in i.props]
         n_ok = sum(1 for i in res if i.ok)
         n_bad = sum(1 for i in res if not i.ok)
         extra = []
         have = {i.key for i in res}
         if not any(i.key == "rule-crashed" for i in res):
+            have = {i.key for i in ctx.rule_result(r)}
             for k in required_keys().get(rid, []):
                 if k not in have:
                     i = Inst("required|" + k, False, "obligation %r of rule %s, generated on the reference tree, was not generated on this tree: the construct it is computed from was removed or is no longer recognised (fail closed)" % (k, rid))
                     i.rule = rid
                     extra.append(i)
                     n_bad += 1
-        if len(res) < r.floor:
+        if n_all < r.floor:
             i = Inst("floor", False, "rule %s produced %d instances, fewer than the %d confirmed by hand (fail closed)" % (rid, len(res), r.floor))
             i.rule = rid
             extra.append(i)
